@@ -212,6 +212,7 @@ type caseOut struct {
 type world struct {
 	fx       *server.VerifFixture
 	fstore   *faultStore
+	mapSocks map[int]bool // mapping index -> created as a SOCKS mapping
 	relays   *relayLog
 	relayDetail []string
 	cancel   context.CancelFunc
@@ -311,6 +312,10 @@ func newWorld(c *caseIn) (*world, error) {
 			return w, fmt.Errorf("CreatePortMapping: %v", err)
 		}
 		w.noteMapping(created.ID, created.SecretKey)
+		if w.mapSocks == nil {
+			w.mapSocks = map[int]bool{}
+		}
+		w.mapSocks[w.mapIdx[created.ID]] = m.Proto == "socks"
 	}
 	for _, cs := range c.Codes {
 		cc, err := fx.ConnCode.CreateConnectionCode(&services.CreateConnectionCodeRequest{
@@ -378,6 +383,31 @@ func (w *world) snapshot(o *stepOut) {
 	all, err := w.fx.Cloud.ListPortMappings("")
 	if err != nil {
 		o.Err += " list mappings: " + err.Error()
+	}
+	// the RECORDS are what the handlers decide on: the global list and the per-client indexes may lag behind them (a storage fault
+	// in the middle of a create / delete leaves a record without list entry, or the other way round), so every id ever seen
+	// anywhere is re-read from the primary record
+	have := map[string]bool{}
+	for _, m := range all {
+		have[m.ID] = true
+	}
+	for ci := 1; ci < len(w.clientID); ci++ {
+		if ms, err := w.fx.Cloud.GetClientPortMappings(w.clientID[ci]); err == nil {
+			for _, m := range ms {
+				if !have[m.ID] {
+					have[m.ID] = true
+					all = append(all, m)
+				}
+			}
+		}
+	}
+	for _, id := range w.mapIDs {
+		if !have[id] {
+			if m, err := w.fx.Cloud.GetPortMapping(id); err == nil && m != nil {
+				have[id] = true
+				all = append(all, m)
+			}
+		}
 	}
 	sort.Slice(all, func(i, j int) bool { return all[i].ID < all[j].ID })
 	for _, m := range all {
@@ -996,15 +1026,27 @@ func evalProperty(w *world, s *stepSpec, before *stepOut, o *stepOut) {
 			continue
 		}
 		ok := false
+		defaultDNS := s.Tgt == 0 && (packet.CommandType(s.Cmd) == packet.DNSResolve || packet.CommandType(s.Cmd) == packet.DNSQuery)
 		for _, m := range before.Mappings {
 			if x != 0 && m[1] == x && m[2] == t {
-				ok = true
+				// the default DNS target is, by the code's own rule, the target of an ACTIVE SOCKS mapping of the sender
+				if !defaultDNS || (m[5] == 1 && w.mapSocks[int(m[0])]) {
+					ok = true
+				}
 			}
 		}
 		if !ok && ct >= 1000 {
 			fail("relayed-to-other-node", fmt.Sprintf("relay code %d (1035 TunnelOpen broadcast with SecretKey / 1121 DNS query frame / 1051 config push) addressed to client %d on another node on behalf of connection identity %d, which has no mapping (listen=%d,target=%d): %v", ct, t, x, x, t, w.relayDetail))
 		} else if !ok && s.Tgt == 0 && (packet.CommandType(s.Cmd) == packet.DNSResolve || packet.CommandType(s.Cmd) == packet.DNSQuery) {
-			fail("reached-default-target", fmt.Sprintf("DNS request with the DEFAULT target (target_client_id <= 0) forwarded to client %d on behalf of connection identity %d, which is not the listen client of any mapping towards it now", t, x))
+			// an active SOCKS mapping towards t still exists (somebody else's now): the stale-index defect of getDefaultTargetClientID;
+			// none exists: the decision was not taken on the current store at all
+			kind := "reached-default-target-without-mapping"
+			for _, m := range before.Mappings {
+				if m[2] == t && m[5] == 1 && w.mapSocks[int(m[0])] {
+					kind = "reached-default-target"
+				}
+			}
+			fail(kind, fmt.Sprintf("DNS request with the DEFAULT target (target_client_id <= 0) forwarded to client %d on behalf of connection identity %d, which is not the listen client of any mapping towards it now", t, x))
 		} else if !ok {
 			fail("reached-client", fmt.Sprintf("command type %d forwarded to client %d by connection identity %d without a mapping (listen=%d,target=%d)", ct, t, x, x, t))
 		}
